@@ -2,7 +2,7 @@
    sequence.  Only statements; proofs live in Omap/OmapProofs.v and Omap/OmapConc.v. *)
 From Coq Require Import List ZArith Bool.
 Import ListNotations.
-From JS Require Import Gen.OmapLocks Omap.Omap Omap.OmapSpec Omap.OmapProofs Omap.OmapConc.
+From JS Require Import Gen.OmapLocks Omap.Omap Omap.OmapSpec Omap.OmapProofs Omap.OmapLaws Omap.OmapConc.
 
 Section C19.
 Context {V : Type} (zero : V).
@@ -38,6 +38,34 @@ Proof. exact (map_ok zero). Qed.
 Theorem C19_len_is_iterated : forall m, Inv m -> m_len m = length (m_pairs zero m).
 Proof. exact (len_is_iterated zero). Qed.
 
+(* "iteration follows first insertion of the live keys", law by law (Omap/OmapLaws.v):
+   a new key is iterated last, an existing key keeps its place whatever value is set,
+   a key deleted and set again moves to the end, lookups see the last write, and a
+   second Filter with the same predicate removes nothing and visits exactly the survivors *)
+Theorem C19_new_key_goes_last : forall (m : @omap V) k v, Inv m -> m_has m k = false ->
+  abs zero (m_set m k v) = abs zero m ++ [(k, v)].
+Proof. exact (m_set_new_key_goes_last zero). Qed.
+
+Theorem C19_existing_key_keeps_place : forall (m : @omap V) k v, Inv m -> m_has m k = true ->
+  map fst (abs zero (m_set m k v)) = map fst (abs zero m).
+Proof. exact (m_set_existing_key_keeps_place zero). Qed.
+
+Theorem C19_delete_then_set_moves_last : forall (m : @omap V) k v, Inv m ->
+  abs zero (m_set (m_delete m k) k v) = s_delete (abs zero m) k ++ [(k, v)].
+Proof. exact (m_delete_then_set_moves_last zero). Qed.
+
+Theorem C19_get_after_set : forall (m : @omap V) k v k', Inv m ->
+  m_get (m_set m k v) k' = if Nat.eqb k k' then Some v else m_get m k'.
+Proof. exact (m_get_after_set zero). Qed.
+
+Theorem C19_get_after_delete : forall (m : @omap V) k, Inv m -> m_get (m_delete m k) k = None.
+Proof. exact (m_get_after_delete zero). Qed.
+
+Theorem C19_filter_twice : forall (m : @omap V) f m1 t1 m2 t2, Inv m ->
+  m_filter zero m f = (m1, t1) -> m_filter zero m1 f = (m2, t2) ->
+  abs zero m2 = abs zero m1 /\ t2 = abs zero m1.
+Proof. exact (m_filter_twice zero). Qed.
+
 Theorem C19_any_interleaving : forall (threads : list (list (@op V))) h, interleaving threads h ->
   snd (run zero empty h) = snd (s_run zero [] h) /\
   abs zero (fst (run zero empty h)) = fst (s_run zero [] h) /\
@@ -62,5 +90,11 @@ Print Assumptions C19_step.
 Print Assumptions C19_filter_visits_each_once.
 Print Assumptions C19_map_visits_each_once.
 Print Assumptions C19_any_interleaving.
+Print Assumptions C19_new_key_goes_last.
+Print Assumptions C19_existing_key_keeps_place.
+Print Assumptions C19_delete_then_set_moves_last.
+Print Assumptions C19_get_after_set.
+Print Assumptions C19_get_after_delete.
+Print Assumptions C19_filter_twice.
 Print Assumptions C19_lock_discipline.
 Print Assumptions C19_api_complete.
